@@ -45,26 +45,21 @@ def plan(tier, ctx):
                     weight=2 ** nc / 8.0))
     # all sequences made of at most 2 runs (arbitrary boundary and values): chunking by 6, zero runs 3..10 / 11..138,
     # run->run transition, final flush in situ (measured nc=24: 71 s; nc=150: OOM at 16 GB; 3 runs nc=12: 50-200 s)
-    for nc in ([24] if quick else [24, 40]):
+    for nc in [24]:   # nc=40: no verdict in 1200 s
         qs.append(q("rl_runs2/nc%d" % nc, ["H_RL", "NC=%d" % nc, "RUNS=2"], unwind=max(nc + 2, 22),
                     unwindset=["write_rl.0:2", "write_rl.1:%d" % (nc // 6 + 2)], weight=30,
                     timeout=(300 if quick else None)))
-    if not quick:
-        qs.append(q("rl_runs3/nc12", ["H_RL", "NC=12", "RUNS=3"], unwind=22, unwindset=["write_rl.0:2", "write_rl.1:4"], weight=40))
+    # (3-run sequences of 12 entries: no verdict in 1200 s, not scheduled)
     qs.append(q("write_rl/run300", ["H_WRL", "RUNMAX=300"], unwind=300 // 6 + 6, core=True, witness=True, weight=20,
                 timeout=400))
     # ---- (c) packed tables and symbol conversions, default and LONGER_HUFFTABLE layouts ----------
     qs.append(q("len_table/default", ["H_LEN"], unwind=40, core=True, witness=True, weight=5))
     qs.append(q("sym/default", ["H_SYM"], unwind=40, core=True, witness=True, weight=2))
     qs.append(q("dist_table/default", ["H_DIST"], unwind=40, core=True, witness=True, weight=5))
-    if not quick:
-        # 8192-entry distance table + dcodes offset 26: distance range case-split
-        for lo, hi in ((1, 8192), (8193, 32768)):
-            qs.append(q("dist_table/longer_%d_%d" % (lo, hi), ["H_DIST", "DIST_LO=%d" % lo, "DIST_HI=%d" % hi],
-                        defines=["LONGER_HUFFTABLE"], unwind=40,
-                        unwindset=["create_packed_dist_table.0:8200", "create_packed_dist_table.1:40"], weight=50))
+    # (LONGER_HUFFTABLE layout: 8192-entry dist_table filled inside struct isal_hufftables -> solver out of memory at
+    #  24 GB after 180 s for either half of the distance range; not scheduled, listed in `outside`)
     # ---- (a, reduced) heapify/build_heap on plain uint64_t arrays (n=5 8 s, n=6 > 150 s) ----------
-    for hn in ([2, 4, 5] if quick else list(range(2, 8))):
+    for hn in ([2, 4, 5] if quick else [2, 3, 4, 5]):   # n=6: 993 s, n=7: > 1200 s
         qs.append(q("build_heap/n%d" % hn, ["H_HEAP", "HN=%d" % hn], unwind=hn + 2, core=(hn == 4), witness=(hn == 4),
                     weight=2 ** hn / 4.0))
     # ---- (d) are_hufftables_useable ------------------------------------------------------------
@@ -85,13 +80,12 @@ def plan(tier, ctx):
                            "convert_length_to_len_sym", "convert_dist_to_dist_sym", "dist_code_extra_bits[]",
                            "are_hufftables_useable", "heapify", "build_heap", "isal_deflate_set_hufftables"],
         bounds={
-            "rl_encode": "ALL length sequences over 0..15 of 1..6 entries (thorough 1..9); all sequences of <= 2 runs with "
-                         "24 (40) entries; write_rl: every (length 0..15, run 1..300)",
+            "rl_encode": "ALL length sequences over 0..15 of 1..6 entries (thorough 1..9; nc=9 715 s); all sequences of <= 2 runs with "
+                         "24 entries; write_rl: every (length 0..15, run 1..300)",
             "packed tables": "29 length / 30 distance code words and lengths arbitrary (1..15 bits, code < 2^len); symbolic "
-                             "match length 3..258 and distance 1..32768; default layout (2-entry dist table) quick, "
-                             "LONGER_HUFFTABLE (8192 entries, dcodes offset 26) thorough",
+                             "match length 3..258 and distance 1..32768; default build layout (2-entry dist_table + dcodes[30])",
             "are_hufftables_useable": "all 286+30 code lengths arbitrary 0..15",
-            "build_heap": "n = 2,4,5 (thorough 2..7; n >= 6 may stay undecided) arbitrary 64-bit keys",
+            "build_heap": "n = 2,4,5 (thorough 2..5; n=6 993 s, n=7 > 1200 s not scheduled) arbitrary 64-bit keys",
             "set_hufftables": "state over the whole enum, every scalar stream field arbitrary, type any int, table NULL or not",
         },
         stubs=["include guards _X86INTRIN_H_INCLUDED/_IMMINTRIN_H_INCLUDED predefined (build speed only; no intrinsic is "
@@ -99,12 +93,13 @@ def plan(tier, ctx):
         assumptions=["code words satisfy code < 2^length, 1 <= length <= 15 (what set_huff_codes produces)",
                      "spec/rfc1951.h tables rfc_len_base/extra, rfc_dist_base/extra are RFC 1951 3.2.5",
                      "set_hufftables: buffer[]/head[] hold zeros except one arbitrary element each (the observed one)"],
-        outside=["(a) build_huff_tree/gen_huff_code_lens/fix_code_lens/set_huff_codes on small alphabets: NOT decided "
+        outside=["packed distance table in the LONGER_HUFFTABLE build (8192 entries): out of memory at 24 GB",
+                 "(a) build_huff_tree/gen_huff_code_lens/fix_code_lens/set_huff_codes on small alphabets: NOT decided "
                  "(CBMC 6.11 mis-models struct heap_tree's anonymous union; array-backed variant > 26 GB at 4 symbols, DESIGN C18)",
                  "(f) create_header/create_huffman_header (keeps a struct heap_tree local): not decided",
                  "isal_create_hufftables / _subset as a whole (286+30 symbolic counts), incl. the argument wiring of its "
                  "create_code_tables/create_packed_*_table calls; the stored deflate_hdr; round trips with custom tables",
-                 "rl_encode on arbitrary sequences of 10..316 entries (only <= 2-run sequences up to 40)",
+                 "rl_encode on arbitrary sequences of 10..316 entries (only <= 2-run sequences of 24 entries; 2 runs x 40 and 3 runs x 12: no verdict in 1200 s)",
                  "assembly: proc_heap.asm, igzip_update_histogram*.asm",
                  "SUSPECTED DEFECT (solver counterexample replayed natively, replay/C18-3482bd9a76.json): "
                  "are_hufftables_useable leaves length symbol 285 out of the length maximum, so lit 15 + len(285) 15 + "
